@@ -1,5 +1,6 @@
 import RSVerif.Properties.C01
-#print axioms RS.restoredList_indices_aux
-#print axioms RS.restoredList_indices
-#print axioms RS.restoredOriginal_size
-#print axioms RS.decode_ok_of_enough
+#print axioms RS.answer_shape
+#print axioms RS.locator_logs_correct
+#print axioms RS.decode_high_restores
+#print axioms RS.decode_low_restores
+#print axioms RS.roundtrip
